@@ -199,6 +199,7 @@ def main(args, cfg):
     lines = []
     known_lines = {}
     reported = set()
+    collateral = []
     os.makedirs(os.path.join(VERIF, "replays"), exist_ok=True)
     for job, ci, tape, cls, detail in found:
         k = match_known(known, cls, detail)
@@ -213,6 +214,12 @@ def main(args, cfg):
             # confirm alone (three fresh processes, same verdict), then minimise the definition
             want = cls.split("/", 1)[1]
             same = sum(1 for k3 in range(3) if fails(rerun_single(binp, job, tape, work, "verify-%d" % k3)) == want)
+            if same == 0:
+                # fails only in company: collateral damage of another case of the same process (e.g. a hanging
+                # case makes the runner give up on the whole client after 20 s); counted, not reported
+                collateral.append("%s g%s: %s" % (job["name"], ci, detail[:200]))
+                reported.discard(cls)
+                continue
             if same != 3:
                 print("case g%s of %s: %s reproduced %d/3 times when run alone; %s" % (ci, job["name"], cls, same, detail[:600]))
                 vcheck.infra("engine-N failure did not replay deterministically")
@@ -245,6 +252,7 @@ def main(args, cfg):
                 "network": agg["net"],
                 "faults_fired": {"segmentation (segments)": agg["net"].get("segments", 0), "small 1-8 byte segments": agg["net"].get("small_segments", 0), "per-segment latency": agg["net"].get("delayed_segments", 0)},
                 "known_findings_seen": known_lines,
+                "failures_not_reproducible_alone": collateral[:20],
                 "environment_adaptations": N.ADAPTATIONS,
                 "components_real": ["runner (Run, loader, expectation generator, assertion), reference client/server, grpc-go client/server peers, all protocol stacks"],
                 "components_stubbed": ["kernel network (simnet)", "wall clock (synctest)", "OS processes (in-process peers)"],
